@@ -1,9 +1,10 @@
--- Obligations about the bit and range functions of ds/str/str.go that have no general theorem yet: PARTIAL —
+-- Obligations about the bit functions of ds/str/str.go that have no general theorem yet (SetBit, BitCountByBit; getBit and
+-- BitCount have general theorems in str.lean): PARTIAL —
 -- equality with the model (Model/DsStr.lean) on an exhaustive small domain, evaluated by the kernel on every run
 -- for the freshly translated functions (values [], [A5], [A5 0F FF]; offsets -2..25; ranges -4..4).
 -- Missing for the full statements: loop invariants for the nested counting loops (BitCount) and the relation between
 -- UInt8 shifts (model) and Int shifts (translation) for symbolic offsets.
--- functions: ds/str String.getBit, ds/str String.GetBit, ds/str String.SetBit, ds/str String.BitCount, ds/str String.BitCountByBit, ds/str String.SetRange
+-- functions: ds/str String.SetBit, ds/str String.BitCountByBit, ds/str String.getBit
 -- properties: C01
 -- import: NodisVerif.Model.DsStr
 -- import: NodisVerif.Proofs.GoLibLemmas
@@ -14,20 +15,10 @@ def smallVals : List Bytes := [[], [0xA5], [0xA5, 0x0F, 0xFF]]
 def offsets : List Int := (List.range 28).map fun (k : Nat) => (k : Int) - 2
 def bounds : List Int := (List.range 9).map fun (k : Nat) => (k : Int) - 4
 
-theorem str_getBit_eq_model_partial :
-    smallVals.all (fun v => offsets.all fun o =>
-      str.String_.getBit ⟨v⟩ o == .ok (DsStr.getBit (some v) o) && str.String_.GetBit ⟨v⟩ o == str.String_.getBit ⟨v⟩ o) = true := by
-  decide +kernel
-
 theorem str_SetBit_eq_model_partial :
     smallVals.all (fun v => offsets.all fun o => [true, false].all fun b =>
       (str.String_.SetBit ⟨v⟩ o b).map (fun r => (r.1.V, r.2)) ==
         .ok (let m := DsStr.setBit (some v) o b; (m.1.getD [], m.2))) = true := by
-  decide +kernel
-
-theorem str_BitCount_eq_model_partial :
-    smallVals.all (fun v => bounds.all fun a => bounds.all fun b =>
-      str.String_.BitCount ⟨v⟩ a b == .ok (DsStr.bitCount (some v) a b)) = true := by
   decide +kernel
 
 theorem str_BitCountByBit_eq_model_partial :
